@@ -297,6 +297,7 @@ type TLG struct {
 	changed     bool
 	warm        bool
 	lastRetOK   []AV  // Probe only: the ok-exit results of the function just analysed
+	lastPostOK  []AV  // Probe only: the parameter facts at the nil-error exits of the function just analysed
 	curAn       *fnAn // during a Probe callback: the analysis and state at the instruction
 	curSt       tstate
 	round       int
@@ -379,6 +380,15 @@ func (t *TLG) OKResultsAssuming(fn *ssa.Function, v ssa.Value, av AV) []AV {
 	t.lastRetOK = nil
 	t.ProbeAssume(fn, v, av, func(ssa.Instruction, func(ssa.Value) AV, func(string) (AV, bool)) {})
 	return t.lastRetOK
+}
+
+// ParamPostOKAssuming: what holds for the parameters of fn at its exits that can carry a nil
+// error, computed under the assumption that value v of fn is av (a check helper asked about one
+// particular tag: checkListHeader(elemType = 0, n) returns nil only for n <= 0).
+func (t *TLG) ParamPostOKAssuming(fn *ssa.Function, v ssa.Value, av AV) []AV {
+	t.lastPostOK = nil
+	t.ProbeAssume(fn, v, av, func(ssa.Instruction, func(ssa.Value) AV, func(string) (AV, bool)) {})
+	return t.lastPostOK
 }
 
 // ProbeErrNonNil: inside a Probe callback, whether the error value v is known to
@@ -486,7 +496,16 @@ func (a *fnAn) noteKill(key string) {
 // loadStillValid: no store/kill of the loaded location since the load, in block b.
 func (a *fnAn) loadStillValid(name string, b *ssa.BasicBlock) (string, bool) {
 	at, ok := a.loadAt[name]
-	if !ok || at[0] != b.Index {
+	if !ok {
+		return "", false
+	}
+	if at[0] != b.Index {
+		// a load in an earlier block: still valid if the location is a local cell that nothing
+		// can write after the load (no store to it in the function; every call that is handed its
+		// address comes before the load)
+		if ld, isLoad := a.vals[name].(*ssa.UnOp); isLoad && ld.Block().Dominates(b) && localCellStableAfter(ld) {
+			return a.loadKey[name], true
+		}
 		return "", false
 	}
 	key := a.loadKey[name]
@@ -681,6 +700,7 @@ func (t *TLG) analyze(fn *ssa.Function) {
 	}
 	if t.probe != nil {
 		t.lastRetOK = a.retOK
+		t.lastPostOK = a.postOK
 	}
 	mergeSum(t.ret, a.retAV)
 	mergeSum(t.retOK, a.retOK)
@@ -3127,4 +3147,63 @@ func (t *TLG) ProbeIndexInBounds(idx, x ssa.Value) (bool, string) {
 		return false, "index " + av.String() + "; " + why
 	}
 	return true, ""
+}
+
+// localCellStableAfter: ld loads a local Alloc that is never stored to directly and whose address is
+// passed only to calls that are executed before the load (they dominate it), so its value cannot
+// change after the load.
+func localCellStableAfter(ld *ssa.UnOp) bool {
+	al, ok := ld.X.(*ssa.Alloc)
+	if !ok || al.Referrers() == nil {
+		return false
+	}
+	for _, r := range *al.Referrers() {
+		switch x := r.(type) {
+		case *ssa.UnOp, *ssa.DebugRef:
+			// loads
+		case *ssa.Store:
+			if x.Addr == ssa.Value(al) {
+				// the zero-initialisation / a single initial store before the load is fine
+				if !(x.Block() == ld.Block() && instrBefore(x, ld)) && !(x.Block() != ld.Block() && x.Block().Dominates(ld.Block())) {
+					return false
+				}
+			} else {
+				return false // the address itself is stored somewhere
+			}
+		case ssa.CallInstruction:
+			in := r.(ssa.Instruction)
+			if _, isDefer := in.(*ssa.Defer); isDefer {
+				return false
+			}
+			if _, isGo := in.(*ssa.Go); isGo {
+				return false
+			}
+			if in.Block() == ld.Block() {
+				if !instrBefore(in, ld) {
+					return false
+				}
+			} else if !in.Block().Dominates(ld.Block()) {
+				return false
+			}
+			// in a loop the call could run again after the load
+			if reaches(ld.Block(), in.Block()) {
+				return false
+			}
+		default:
+			return false // address escapes in some other way (closure, conversion, field)
+		}
+	}
+	return true
+}
+
+func instrBefore(a, b ssa.Instruction) bool {
+	for _, in := range a.Block().Instrs {
+		if in == a {
+			return true
+		}
+		if in == b {
+			return false
+		}
+	}
+	return false
 }
